@@ -1855,7 +1855,7 @@ XSLTEngineImpl::charactersRaw(
 
     doFlushPending();
 
-    getFormatterListenerImpl()->charactersRaw(ch, length);
+    getFormatterListenerImpl()->charactersRaw(ch + start, length);
 
     if(getTraceListeners() > 0)
     {
@@ -2021,7 +2021,7 @@ XSLTEngineImpl::cdata(
 
     flushPending();
 
-    getFormatterListenerImpl()->cdata(ch, length);
+    getFormatterListenerImpl()->cdata(ch + start, length);
 
     if(getTraceListeners() > 0)
     {
